@@ -31,7 +31,8 @@ PROP = "C11"
 VERIF = os.path.dirname(os.path.dirname(os.path.abspath(__file__)))
 MEXSIM = os.path.join(VERIF, "mexsim")
 REPO = os.environ.get("VERIF_REPO", "/repo")
-PROBES = ["derived_object_as_base_argument", "same_object_two_handles", "delete_base_chain", "exception_injected",
+PROBES = ["class_name_shared_by_two_namespaces", "class_name_prefix_of_another", "non_virtual_class_with_parent",
+          "derived_object_as_base_argument", "same_object_two_handles", "delete_base_chain", "exception_injected",
           "unload_clear_all", "returned_object_kept", "by_value_object_argument", "raw_pointer_argument",
           "shared_pointer_argument", "default_argument_omitted", "illformed_call_refused", "pair_return",
           "property_roundtrip", "inherited_method_called", "enum_argument", "enum_return",
@@ -93,9 +94,9 @@ def _build_program(args):
     d = os.path.join(tmp, "prog%d" % k if k >= 0 else "progT")
     os.makedirs(d)
     tape = Tape(seed=seed)
-    force = [["chain", "overloads"], ["enum", "template"], ["objargs", "plainchain"], ["chain", "objargs", "template"],
-             ["plainchain", "overloads"], ["enum_nested", "chain"], ["template", "overloads"],
-             ["objargs", "template", "enum_nested"]][k % 8]
+    force = [["chain", "overloads"], ["enum", "template", "samenames"], ["objargs", "plainchain"],
+             ["chain", "objargs", "template"], ["plainchain", "overloads"], ["enum_nested", "chain", "samenames"],
+             ["template", "overloads"], ["objargs", "template", "enum_nested"]][k % 8]
     feats = {"enums": True, "force": force}
     if k < 0:          # the `thisargs` program: class templates using `This` as argument / return everywhere
         feats = {"enums": True, "force": ["template", "template", "enum_nested"], "this_args": True,
@@ -661,6 +662,13 @@ class Hist:
             return
         vals, exp = sup
         self.steps.append("construct %s(%s)" % (mname(c.qname), ", ".join(map(repr, vals))))
+        shorts = [k.name for k in self.prog.classes]
+        if shorts.count(c.name) > 1:
+            self.pr("class_name_shared_by_two_namespaces")
+        if any(o is not c and o.name.startswith(c.name) and o.ns == c.ns for o in self.prog.classes):
+            self.pr("class_name_prefix_of_another")
+        if c.parent and not c.virtual:
+            self.pr("non_virtual_class_with_parent")
         before = set(self.s.objects)
         try:
             obj = self.s.construct(mname(c.qname), vals)
